@@ -50,24 +50,32 @@ PHash(P) == SumFn([k \in 1..Len(P) |-> (LKey(P[k]) + P[k].m + 7 * P[k].nc) % 100
 OnFace(P, f) == [k \in 1..Len(P) |-> [P[k] EXCEPT !.f = f]]
 
 \* ------------------------------------------------------------------ pairs ------
-\* a full state is <<P, Q, vertex sequences of P, vertex sequences of Q>> (computed once)
+\* a full state is <<P, Q, vertex sequences of P, of Q, the probe universe U,
+\*                   the regions of <<P, ~P, Q, ~Q>> on U, <<top loop of P, of Q>>>>   (computed once)
 MkPair(P, Q, fp) ==
     LET p0 == OnFace(P, fp \div 6)
         q0 == OnFace(Q, fp % 6)
         sc == p0 \o q0
         vs == UNION {OwnPts(sc[k]) : k \in 1..Len(sc)}
-    IN  <<p0, q0, [k \in 1..Len(p0) |-> Verts(p0[k], vs)], [k \in 1..Len(q0) |-> Verts(q0[k], vs)]>>
-InitPair == t \in {<<P>> : P \in PolysA}
-NextPair == /\ Len(t) = 1
+        u == Probes(sc, GF)
+    IN  <<p0, q0, [k \in 1..Len(p0) |-> Verts(p0[k], vs)], [k \in 1..Len(q0) |-> Verts(q0[k], vs)], u,
+          <<RegionOn(u, p0), RegionOn(u, PolyComplement(p0, u)), RegionOn(u, q0), RegionOn(u, PolyComplement(q0, u))>>,
+          <<TopIdx(p0, u), TopIdx(q0, u)>> >>
+\* initial states <<P, chunk>>: the work is split into 4 chunks of Q per P (parallelism)
+InitPair == t \in {<<P, ch>> : P \in PolysA, ch \in 0..3}
+NextPair == /\ Len(t) = 2
             /\ t' \in {MkPair(t[1], pr[1], pr[2]) :
-                        pr \in {x \in PolysB \X FacePairs : (PHash(t[1]) + PHash(x[1]) + x[2]) % ThinMod = ThinRem}}
+                        pr \in {x \in PolysB \X FacePairs : /\ (PHash(t[1]) + PHash(x[1]) + x[2]) % ThinMod = ThinRem
+                                                              /\ (PHash(x[1]) \div 7) % 4 = t[2]}}
 
-FullPair == Len(t) = 4
+FullPair == Len(t) = 7
 P0 == t[1]
 Q0 == t[2]
 Scene == P0 \o Q0
 SceneVerts == t[3] \o t[4]
-U0 == Probes(Scene, GF)
+U0 == t[5]
+RX == <<t[6][1], t[6][2]>>     \* regions of P and of its complement
+RY == <<t[6][3], t[6][4]>>     \* regions of Q and of its complement
 CP0 == PolyComplement(P0, U0)
 CQ0 == PolyComplement(Q0, U0)
 VSet == UNION {OwnPts(Scene[k]) : k \in 1..Len(Scene)}
@@ -82,7 +90,7 @@ ValidPair ==
 \* model theorems, checked on every generated pair
 PairTheorems ==
     FullPair /\ ValidPair =>
-        /\ LawsHold(U0, P0, Q0, CP0, CQ0)
+        /\ LawsHold(U0, RX[1], RY[1], RX[2], RY[2], PolysTouch(P0, Q0))
         \* no vertex of a loop lies on another loop's boundary without being its vertex
         /\ \A i, j \in 1..Len(Scene) :
               Scene[i].f = Scene[j].f /\ i # j =>
@@ -95,59 +103,69 @@ PairExact ==
     FullPair /\ ValidPair /\ CheckAll =>
         LET W == AllCells(GF) XS == <<P0, CP0>> YS == <<Q0, CQ0>>
         IN  /\ \A s \in 1..2, u \in 1..2 :
-                  /\ ContainsOn(U0, XS[s], YS[u]) = ContainsOn(W, XS[s], YS[u])
-                  /\ ContainsOn(U0, YS[u], XS[s]) = ContainsOn(W, YS[u], XS[s])
-                  /\ IntersectsOn(U0, XS[s], YS[u]) = IntersectsOn(W, XS[s], YS[u])
-            /\ LawsHold(W, P0, Q0, CP0, CQ0)
+                  /\ Subset(RY[u], RX[s]) = ContainsOn(W, XS[s], YS[u])
+                  /\ Subset(RX[s], RY[u]) = ContainsOn(W, YS[u], XS[s])
+                  /\ Meets(RX[s], RY[u]) = IntersectsOn(W, XS[s], YS[u])
+            /\ LawsHold(W, RegionOn(W, P0), RegionOn(W, Q0), RegionOn(W, CP0), RegionOn(W, CQ0), PolysTouch(P0, Q0))
             /\ \A k \in 1..Len(Scene) : LoopGeometryOK(Scene[k], GF)
             \* a complemented loop is the same boundary walked backwards; vertices are distinct
             /\ \A k \in 1..Len(Scene) : /\ Verts(Complement(Scene[k]), VSet) = Reverse(SceneVerts[k])
                                         /\ Cardinality(Range(SceneVerts[k])) = Len(SceneVerts[k])
             /\ \A k \in 1..Len(P0) : DepthIn(P0, k, U0) = DepthIn(P0, k, W)
+            /\ \A k \in 1..Len(Q0) : DepthIn(Q0, k, U0) = DepthIn(Q0, k, W)
 
 EmitPair ==
     IF FullPair /\ ValidPair
-    THEN LET XS == <<P0, CP0>> YS == <<Q0, CQ0>>
-         IN  PrintT(<<"CASE", ToJson(
+    THEN PrintT(<<"CASE", ToJson(
                [op |-> "c07pair", fa |-> P0[1].f, fb |-> Q0[1].f, gf |-> GF, ga |-> GA, gb |-> GB,
-                a |-> [loops |-> t[3], top |-> TopIdx(P0, U0) - 1],
-                b |-> [loops |-> t[4], top |-> TopIdx(Q0, U0) - 1],
+                a |-> [loops |-> t[3], top |-> t[7][1] - 1],
+                b |-> [loops |-> t[4], top |-> t[7][2] - 1],
                 touch |-> PolysTouch(P0, Q0),
-                want |-> [c |-> [s \in 1..2 |-> [u \in 1..2 |-> ContainsOn(U0, XS[s], YS[u])]],
-                          d |-> [s \in 1..2 |-> [u \in 1..2 |-> ContainsOn(U0, YS[u], XS[s])]],
-                          i |-> [s \in 1..2 |-> [u \in 1..2 |-> IntersectsOn(U0, XS[s], YS[u])]]]])>>)
+                want |-> [c |-> [s \in 1..2 |-> [u \in 1..2 |-> Subset(RY[u], RX[s])]],
+                          d |-> [s \in 1..2 |-> [u \in 1..2 |-> Subset(RX[s], RY[u])]],
+                          i |-> [s \in 1..2 |-> [u \in 1..2 |-> Meets(RX[s], RY[u])]]]])>>)
     ELSE TRUE
 
 \* ---------------------------------------------------------------- forests ------
+\* a full state is <<code, input order, realisation, scale exponent, subdivided?, the loops>>
+ForestLoops(code, perm, real, sc, sub) ==
+    LET n == code \div 1000
+        p == ForestOf(n, code % 1000)
+        face == (code + perm[1]) % 6
+    IN  [i \in 1..n |-> LET r == FRect(p, i, real, FBase, FBase, FBase + 10)
+                        IN  FineLoop(face, 4, 4 + sc, r[1], r[2], r[3], r[4], 0, 0, 0, FALSE, IF sub THEN 1 ELSE 0)]
 InitForest == t \in {<<code>> : code \in Codes}
 NextForest == /\ Len(t) = 1
-              /\ t' \in {<<t[1], perm, real, sc, sub>> : perm \in Permutations(1..(t[1] \div 1000)), real \in Reals,
-                                                          sc \in Scales, sub \in Subs}
-FullForest == Len(t) = 5
+              /\ t' \in {<<t[1], perm, real, sc, sub, ForestLoops(t[1], perm, real, sc, sub)>> :
+                            perm \in Permutations(1..(t[1] \div 1000)), real \in Reals, sc \in Scales, sub \in Subs}
+FullForest == Len(t) = 6
 NN == t[1] \div 1000
 FP == ForestOf(NN, t[1] % 1000)
 FPerm == t[2]
 FGF == 4 + t[4]
 FFace == (t[1] + t[2][1]) % 6
-FLoop(i) == LET r == FRect(FP, i, t[3], FBase, FBase, FBase + 10)
-            IN  FineLoop(FFace, 4, FGF, r[1], r[2], r[3], r[4], 0, 0, 0, FALSE, 0)
-FPoly == [i \in 1..NN |-> [FLoop(i) EXCEPT !.m = IF t[5] THEN 1 ELSE 0]]
+\* subdivided: a vertex at every point of the fine grid (m = 1 fine cell)
+FPoly == [i \in 1..NN |-> [t[6][i] EXCEPT !.m = IF t[5] THEN 1 ELSE 0]]
 FU == Probes(FPoly, FGF)
 FVSet == UNION {OwnPts(FPoly[k]) : k \in 1..NN}
 FPos(j) == CHOOSE k \in 1..NN : FPerm[k] = j
 
 ForestTheorems ==
     FullForest =>
-        /\ \A i \in 1..NN : WellFormed(FPoly[i], FGF)
-        /\ ValidPolygon(FPoly, FU)
-        \* geometry realises the forest: j encloses i exactly when j is a proper ancestor of i,
-        \* hence depth = number of enclosing loops and "hole" = that number is odd
-        /\ \A i, j \in 1..NN : i # j => (Encloses(FPoly[j], FPoly[i], FU) <=> i \in Desc(FP, j))
-        /\ \A i \in 1..NN : DepthIn(FPoly, i, FU) = WantDepth(FP, i)
-        /\ \A i \in 1..NN : WantHole(FP, i) <=> (Cardinality({j \in 1..NN : j # i /\ Encloses(FPoly[j], FPoly[i], FU)}) % 2 = 1)
-        \* the witness cell of a loop (its lower-left cell) is inside it and inside none of its descendants
-        /\ \A i \in 1..NN : LET w == <<FFace, FPoly[i].X0, FPoly[i].Y0>>
-                            IN  LoopIn(FPoly[i], w) /\ \A j \in Desc(FP, i) : ~LoopIn(FPoly[j], w)
+        LET poly == FPoly
+            u == Probes(poly, FGF)
+            reg == LoopRegions(poly, u)
+            enc == [i \in 1..NN |-> EnclosingIn(reg, i)]      \* the loops enclosing loop i
+        IN  /\ \A i \in 1..NN : WellFormed(poly[i], FGF)
+            /\ ValidPolygon(poly, u)
+            \* geometry realises the forest: j encloses i exactly when j is a proper ancestor of i,
+            \* hence depth = number of enclosing loops and "hole" = that number is odd
+            /\ \A i, j \in 1..NN : i # j => (j \in enc[i] <=> i \in Desc(FP, j))
+            /\ \A i \in 1..NN : Cardinality(enc[i]) = WantDepth(FP, i)
+            /\ \A i \in 1..NN : WantHole(FP, i) <=> (Cardinality(enc[i]) % 2 = 1)
+            \* the witness cell of a loop (its lower-left cell) is inside it and inside none of its descendants
+            /\ \A i \in 1..NN : LET w == <<FFace, poly[i].X0, poly[i].Y0>>
+                                IN  LoopIn(poly[i], w) /\ \A j \in Desc(FP, i) : ~LoopIn(poly[j], w)
 
 EmitForest ==
     IF FullForest
